@@ -88,6 +88,12 @@ Entries(o) ==
   IF o.op = "MountBlob" THEN {o.from, o.r} \X {"Read", "Write"}
   ELSE IF o.op = "ListRepos" THEN {<<Star, "List">>} \cup (Repos \X {"Read"})
   ELSE {o.r} \X Kinds
+\* ... and the entries it actually consults
+ConsEntries(o) ==
+  IF o.op = "ListRepos" THEN {<<Star, "List">>} \cup (Repos \X {"Read"})
+  ELSE {<<StaticCons(o)[i].n, StaticCons(o)[i].k>> : i \in 1..Len(StaticCons(o))}
+NestOps == UNION {Range(OpsSeqOn(r)) : r \in {"r1"}} \cup {Mount(f, t) : f \in {"r1", "r2"}, t \in {"r1", "r2"}}
+           \cup {[op |-> "ListRepos", startpos |-> s] : s \in {0, 3}}
 TableOf(f) == [n \in Repos \cup {Star} |-> [k \in Kinds |-> IF <<n, k>> \in DOMAIN f THEN f[<<n, k>>] ELSE PolOk]]
 NoScope == [unl |-> FALSE, set |-> {}]
 RichScope == [unl |-> FALSE, set |-> {<<"repository", "a", "pull">>, <<"repository", "../fooey", "push">>,
@@ -131,13 +137,24 @@ FNext ==
                      /\ last' = [o |-> o, pol |-> SelPol(allow, Repos), sc |-> NoScope, allow |-> allow, fail |-> -1]
                   \/ \E k \in FailPoints(o) : CheckedListFail(o, SelPol(allow, Repos), NoScope, k)
                                                /\ last' = [o |-> o, pol |-> SelPol(allow, Repos), sc |-> NoScope, allow |-> allow, fail |-> k]
+       [] kind = "nest" ->
+            \* two stacked checkers, every pair of policies over the entries the call consults
+            \E o \in NestOps : \E f1, f2 \in [ConsEntries(o) -> {PolOk} \cup ErrIds] :
+               /\ NestApply(o, <<TableOf(f1), TableOf(f2)>>, NoScope)
+               /\ last' = [o |-> o, pol |-> <<TableOf(f1), TableOf(f2)>>, sc |-> NoScope, allow |-> {}, fail |-> -1]
        [] kind = "sub" ->
             \E o \in SubOps(IF step < HostileSteps THEN CallerNames ELSE CallerNames \ HostileNames) : \E sc \in ScopesFor(o) :
-               /\ SubApply(o, sc)
-               /\ last' = [o |-> o, pol |-> <<>>, sc |-> sc, allow |-> {}, fail |-> -1]
+               /\ \/ SubApply(o, sc) /\ last' = [o |-> o, pol |-> <<>>, sc |-> sc, allow |-> {}, fail |-> -1]
+                  \/ \E k \in (IF o.op = "ListRepos" THEN 0..Cardinality(Repos) ELSE {}) :
+                        SubListFail(o, sc, k) /\ last' = [o |-> o, pol |-> <<>>, sc |-> sc, allow |-> {}, fail |-> k]
 FSpec == FInit /\ [][FNext]_mcvars
 
 \* ------------------------------------------------------------ properties --
+NestIsConjunction == [][kind = "nest" => NestStep(last'.o, last'.pol)]_mcvars
+\* one level is the single checker
+NestOfOne == [][kind = "checker" /\ last'.fail < 0 =>
+                  LET p == <<last'.pol>> IN
+                  (NestFirstRej(last'.o, p) > 0) = Rejected(last'.o, last'.pol)]_mcvars
 IsC12 == kind \in {"checker", "select"}
 RejectedNeverReachesBackend == [][IsC12 => RejectedNeverReachesBackendStep(last'.o, last'.pol)]_mcvars
 ListingFiltered == [][IsC12 => ListingFilteredStep(last'.o, last'.pol)]_mcvars
@@ -161,8 +178,9 @@ FailedListingIsPrefix ==
           Len(wres'.items) <= Len(full) /\ wres'.items = SubSeq(full, 1, Len(wres'.items))]_mcvars
 IsSub == kind = "sub"
 Confined == [][IsSub => ConfinedCalls(bcalls')]_mcvars
-EqualsRestriction == [][IsSub => EqualsRestrictionStep(last'.o)]_mcvars
-ListingExact == [][IsSub => ListingExactStep(last'.o)]_mcvars
+EqualsRestriction == [][(IsSub /\ last'.fail < 0) => EqualsRestrictionStep(last'.o)]_mcvars
+ListingExact == [][(IsSub /\ last'.fail < 0) => ListingExactStep(last'.o)]_mcvars
+SubFailedListingIsPrefix == [][(IsSub /\ last'.fail >= 0) => SubFailedListingStep(last'.o) /\ ConfinedCalls(bcalls')]_mcvars
 ScopesRewritten == [][IsSub => ScopesRewrittenStep(last'.sc) /\ (last'.o.op \in IfaceOps /\ (\A n \in OpNames(last'.o) : ValidName(n)) => Len(bscopes') = 1)]_mcvars
 \* the name mapping itself, over every enumerated caller string
 NamesOK == \A n \in {x.s : x \in AllNames} : InvalidStaysInvalid(n) /\ ValidGoesUnder(n)
